@@ -357,7 +357,8 @@ def handle (st : DState) (line : String) : DState × String :=
     let ps : List Spec.Fs.Pending := if mode = "live" then
         st.mgr.files.map fun f => { blk := f.entry.entryBlock, off := f.entry.entryOffset, cluster := f.entry.cluster, size := f.entry.size }
       else []
-    let v := Spec.Fs.fsck st.geom st.shadow ps (mode = "live")
+    -- "quiesced" = nothing is open on the implementation's side: no pending entries, sizes must be up to date
+    let v := Spec.Fs.fsck st.geom st.shadow ps (mode = "live" || mode = "quiesced")
     let head := if v.problems.isEmpty then "ok" else "fail " ++ "|".intercalate (v.problems.take 4)
     (st, s!"{head} dirs={v.dirs} files={v.files} used={v.used} reach={v.reachable} leaked={v.leaked.length}:" ++
          ",".intercalate ((v.leaked.take 6).map toString))
